@@ -364,6 +364,44 @@ def resolve_tie(ctx, programs):
     ctx.count("resolve_tie_cases", len(keep))
 
 
+def twin_modules(ctx):
+    """declarations at the same place of the trees of two modules are different binders: each use evaluates to the value of
+    the declaration of the module it names"""
+    cases = [
+        ({"file:///w/main.oal": 'use "v1.oal" as a;\nuse "v2.oal" as b;\nres /a on get -> a.node;\nres /b on get -> b.node;\n',
+          "file:///w/v1.oal": "let node = { 'value int, 'children [node] };\n", "file:///w/v2.oal": "let node = { 'label str, 'children [node] };\n"},
+         {"/a": "value", "/b": "label"}),
+        ({"file:///w/main.oal": 'use "x/m.oal" as x;\nuse "y/m.oal" as y;\nres /a on get -> <x.t>;\nres /b on get -> <y.t>;\n',
+          "file:///w/x/m.oal": "let t = rec r { 'left [r] };\n", "file:///w/y/m.oal": "let t = rec r { 'right [r] };\n"},
+         {"/a": "left", "/b": "right"}),
+    ]
+    res = progs.compile_many([{"mods": m, "main": "file:///w/main.oal"} for m, _ in cases])
+    for (m, want), r in zip(cases, res):
+        ctx.cov["evaluations"] += 1
+        inp = {"program": {"mods": m, "main": "file:///w/main.oal"}}
+        if r.get("status") != "ok":
+            ctx.violation("a program importing two modules of the same shape is not compiled", inp, "ok", str(r.get("msg"))[:200])
+            continue
+        doc = r["doc"]
+        comps = (doc.get("components") or {}).get("schemas") or {}
+        for path, prop in want.items():
+            try:
+                sch = list(doc["paths"][path]["get"]["responses"].values())[0]["content"]["application/json"]["schema"]
+                n = 0
+                while "$ref" in sch and n < 5:
+                    sch = comps[sch["$ref"].rsplit("/", 1)[1]]
+                    n += 1
+                props = list((sch.get("properties") or {}))
+            except Exception as ex:
+                props = ["<%r>" % (ex,)]
+            if prop not in props:
+                ctx.violation("a use of a declaration of one module evaluates to the declaration at the same place of another module",
+                              dict(inp, path=path), "a schema with property %r" % prop, props)
+                break
+        else:
+            ctx.count("twin_modules_ok")
+
+
 def check(ctx):
     ctx.proof = core.proof_stage("C08", thorough=ctx.thorough)
     ok, out = core.ensure_harness()
@@ -394,6 +432,7 @@ def check(ctx):
         resolve_tie(ctx, [p])
         ctx.cov["evaluations"] = 1
         return core.finish(ctx)
+    twin_modules(ctx)
     n = 18000 if ctx.thorough else 1200
     for i in range(n):
         g = G(ctx.rng)
